@@ -222,6 +222,13 @@ def run_proc(argv, cwd, env, stdin=None, timeout=TIMEOUT_S, stdout_to=None,
         fh = open(stdout_to, "wb")
         out_f = fh
     preexec = None
+    pty_master = None
+    if stdout_kind == "pty":
+        # stdout is a pseudo-terminal (what `--color=auto` and isatty() look at)
+        import pty
+        pty_master, pty_slave = pty.openpty()
+        fh = os.fdopen(pty_slave, "wb", buffering=0)
+        out_f = fh
     if stdout_kind == "devfull":
         fh = open("/dev/full", "wb")
         out_f = fh
@@ -243,7 +250,27 @@ def run_proc(argv, cwd, env, stdin=None, timeout=TIMEOUT_S, stdout_to=None,
         if fh:
             fh.close()
         raise HarnessError("cannot start %s: %s" % (argv[0], e))
+    pty_data = b""
     try:
+        if pty_master is not None:
+            fh.close()
+            fh = None
+            import select
+            deadline = time.time() + timeout
+            while True:
+                r, _, _ = select.select([pty_master], [], [], 0.05)
+                if r:
+                    try:
+                        chunk = os.read(pty_master, 65536)
+                    except OSError:
+                        chunk = b""
+                    if not chunk:
+                        break
+                    pty_data += chunk
+                elif p.poll() is not None:
+                    break
+                if time.time() > deadline:
+                    raise subprocess.TimeoutExpired(argv, timeout)
         out, err = p.communicate(stdin, timeout=timeout)
         timed_out = False
     except subprocess.TimeoutExpired:
@@ -262,6 +289,9 @@ def run_proc(argv, cwd, env, stdin=None, timeout=TIMEOUT_S, stdout_to=None,
         if stdout_to:
             with open(stdout_to, "rb") as f:
                 out = f.read()
+    if pty_master is not None:
+        os.close(pty_master)
+        out = pty_data.replace(b"\r\n", b"\n")     # the terminal's ONLCR
     rc = p.returncode
     sig = -rc if rc is not None and rc < 0 else 0
     return Result(rc if rc is not None and rc >= 0 else -1, sig, out or b"", err or b"", timed_out)
